@@ -451,11 +451,11 @@ impl Prop for C06 {
                         if writes != 0 {
                             return viol("invalid-write-touched-stream", i, "try_write with nothing pending called write".into(), &sig);
                         }
-                        continue;
-                    }
-                    if writes != 1 {
+                        // (fall through to the invariants: an invalid write must not change what is pending)
+                    } else if writes != 1 {
                         return viol("no-write", i, format!("output pending but try_write made {} write calls (result {:?})", writes, res), &sig);
                     }
+                    if pending_model {
                     match op {
                         WrOp::Accept(_) | WrOp::Eintr => {
                             match op {
@@ -496,6 +496,7 @@ impl Prop for C06 {
                             expected.clear();
                             queued_resps.clear();
                         }
+                    }
                     }
                 }
             }
